@@ -50,7 +50,7 @@ def create_mcmc_parser(subprasers):
     return parser
 
 
-def create_mcmc(joint, parameters, parameters_unres, arg):
+def create_mcmc(joint, parameters, parameters_unres, arg, has_prior=True):
     mcmc_json = {
         "id": "mcmc",
         "type": "MCMC",
@@ -74,7 +74,7 @@ def create_mcmc(joint, parameters, parameters_unres, arg):
 
     if arg.stem:
         parameters2 = list(filter(lambda x: 'tree.ratios' != x, parameters))
-        mcmc_json["loggers"] = create_loggers(parameters2, arg)
+        mcmc_json["loggers"] = create_loggers(parameters2, arg, has_prior)
 
     return mcmc_json
 
@@ -115,7 +115,13 @@ def build_mcmc(arg):
     }
     json_list.append(joint_jacobian)
 
-    opt_dict = create_mcmc("joint.jacobian", parameters, parameters_unres, arg)
+    has_prior = any(
+        isinstance(d, dict) and d.get("id") == "prior"
+        for d in joint_dic["distributions"]
+    )
+    opt_dict = create_mcmc(
+        "joint.jacobian", parameters, parameters_unres, arg, has_prior
+    )
     json_list.append(opt_dict)
 
     for plugin in PLUGIN_MANAGER.plugins():
